@@ -8,7 +8,16 @@ import sys
 ROOT = os.path.dirname(os.path.dirname(os.path.abspath(__file__)))
 REPO = os.environ.get("VERIF_REPO_SRC", "/repo")
 sys.path.insert(0, os.path.join(ROOT, "mutants"))
-import SPEC  # noqa: E402
+import glob  # noqa: E402
+import importlib  # noqa: E402
+
+
+class SPEC:  # merged view over mutants/SPEC*.py
+    MUTANTS = {}
+
+
+for _f in sorted(glob.glob(os.path.join(ROOT, "mutants", "SPEC*.py"))):
+    SPEC.MUTANTS.update(importlib.import_module(os.path.basename(_f)[:-3]).MUTANTS)
 
 only = sys.argv[1] if len(sys.argv) > 1 else None
 bad = 0
